@@ -40,7 +40,6 @@ def stepCheck (a : Acc) (op : Rec) (obs : List Rec) : Acc := Id.run do
   let now : SList := (ls.ints "keys").zip (ls.flts "hps")
   let prev := a.get tgt
   let removedEvs := (obs.filter fun r => r.name == "ShieldRemoved" && r.int "tgt" == tgt).map (·.int "key")
-  if now.any (fun p => p.2 < 0) then a := a.fail "shield below zero"
   match op.name with
   | "add" =>
     let key := op.int "key"
@@ -74,6 +73,9 @@ def stepCheck (a : Acc) (op : Rec) (obs : List Rec) : Acc := Id.run do
       if !sameList now prev then a := a.fail "pass: shields changed"
       if !removedEvs.isEmpty then a := a.fail "pass: removal announced"
     else
+      -- damage never leaves a shield below zero (a shield whose documented strength is negative — a bonus below
+      -- -100 %, a negative flat value — is below zero until the first hit, which takes it away)
+      if now.any (fun p => p.2 < 0) then a := a.fail "shield below zero after a hit"
       let wantOut := dimF dmg (maxHP prev)
       if ret != wantOut then a := a.fail s!"absorb: passed on {ret}, expected max(0, damage - strongest) = {wantOut}"
       if ret < 0 then a := a.fail "absorb: negative damage passed on"
